@@ -60,3 +60,17 @@ Theorem C03_retrieve_info_wraps_validation_error : forall dsig decrypt cfg now r
   retrieve_assertion_info_tree dsig decrypt cfg now root = Err (EVerification e).
 Proof. exact retrieve_info_wraps_validation_error. Qed.
 Print Assumptions C03_retrieve_info_wraps_validation_error.
+
+(* ---- tie to the source text: the bodies of Validate / validateResponseAttributes, translated from /repo on this run
+   (GenFuncs.v), compute exactly the model function the theorems above are about, for every input, and never
+   dereference nil ---- *)
+From V Require Import GenPrelude GenFuncs P_GenFuncs.
+Theorem C03_source_Validate_is_the_model : forall cfg now r,
+  G_Validate cfg now r = PVal (validate cfg now r).
+Proof. exact G_Validate_eq. Qed.
+Print Assumptions C03_source_Validate_is_the_model.
+
+Theorem C03_source_validateResponseAttributes_is_the_model : forall cfg now r,
+  G_validateResponseAttributes cfg now r = PVal (validate_attrs (cfg_acs_url cfg) (r_destination r) (r_version r)).
+Proof. exact G_validateResponseAttributes_eq. Qed.
+Print Assumptions C03_source_validateResponseAttributes_is_the_model.
